@@ -126,3 +126,53 @@ _c("time_signature_event",
             ("clocks", "result[%s + 5] == 24 and result[%s + 6] == 8" % (DT, DT)),
             ("length", "len(result) == %s + 7" % DT)],
    split=[{"assume": "meter[1] == %d" % d} for d in (1, 2, 4, 8, 16, 32, 64, 128)], battery="track_meter")
+
+# ---------------------------------------------------------------- note-level walkers (byte-exact)
+_OLD = {"old_data": "self.track_data", "old_dt": "self.delta_time"}
+_NOTE_RANGE = ("is_name(note.name) and 0 <= note.channel and note.channel <= 15")
+for _nm, _st in (("play_Note", 144), ("stop_Note", 128)):
+    _c(_nm,
+       params={"self": "MidiTrack", "note": "Note"},
+       requires=[("valid-note", _NOTE_RANGE), ("no-pending-instrument-change", "not self.change_instrument")],
+       returns="None", old=_OLD,
+       ensures=[("appends-exactly-one-event", "len(self.track_data) == len(old_data) + len(old_dt) + 3"),
+                ("earlier-data-untouched", "self.track_data[:len(old_data)] == old_data"),
+                ("pending-delta-time-first", "self.track_data[len(old_data):len(old_data) + len(old_dt)] == old_dt"),
+                ("status-byte-with-the-notes-channel", "self.track_data[len(old_data) + len(old_dt)] == %d + note.channel" % _st),
+                ("pitch-number-plus-12", "self.track_data[len(old_data) + len(old_dt) + 1] == pitch(note) + 12"),
+                ("the-notes-velocity", "self.track_data[len(old_data) + len(old_dt) + 2] == note.velocity")],
+       raises={"AssertionError": "note.velocity < 0 or note.velocity > 127 or pitch(note) + 12 < 0 or pitch(note) + 12 > 127"},
+       modifies=["param:self"], havoc={"self.track_data": "bytes"},
+       battery="track_note")
+
+CLASSES["NoteContainer"] = {"class": "mingus.containers.note_container.NoteContainer", "fields": {"notes": "[Note]"}}
+INLINE |= set(["mingus.containers.note_container.NoteContainer.__len__",
+               "mingus.containers.note_container.NoteContainer.__getitem__"])
+_NC_VALID = ("all([is_name(n.name) and 0 <= n.channel and n.channel <= 15 and 0 <= n.velocity and n.velocity <= 127 "
+             "and 0 <= pitch(n) + 12 and pitch(n) + 12 <= 127 for n in notecontainer.notes])")
+_B = "len(old_data) + len(old_dt)"
+for _nm, _st in (("play_NoteContainer", 144), ("stop_NoteContainer", 128)):
+    _c(_nm,
+       params={"self": "MidiTrack", "notecontainer": "NoteContainer"},
+       requires=[("valid-notes-in-midi-range", _NC_VALID), ("no-pending-instrument-change", "not self.change_instrument")],
+       returns="None", old=_OLD,
+       ensures=[("one-event-per-note-first-with-the-pending-delta-the-rest-with-delta-0",
+                 "len(self.track_data) == len(old_data) + (0 if len(notecontainer.notes) == 0 else "
+                 "len(old_dt) + 3 + 4 * (len(notecontainer.notes) - 1))"),
+                ("earlier-data-untouched", "self.track_data[:len(old_data)] == old_data"),
+                ("first-event", "len(notecontainer.notes) == 0 or ("
+                                "self.track_data[len(old_data):%s] == old_dt and "
+                                "self.track_data[%s] == %d + notecontainer.notes[0].channel and "
+                                "self.track_data[%s + 1] == pitch(notecontainer.notes[0]) + 12 and "
+                                "self.track_data[%s + 2] == notecontainer.notes[0].velocity)" % (_B, _B, _st, _B, _B)),
+                ("later-events-at-delta-0-in-order",
+                 "all([self.track_data[%s + 3 + 4 * (i - 1)] == 0 and "
+                 "self.track_data[%s + 4 + 4 * (i - 1)] == %d + notecontainer.notes[i].channel and "
+                 "self.track_data[%s + 5 + 4 * (i - 1)] == pitch(notecontainer.notes[i]) + 12 and "
+                 "self.track_data[%s + 6 + 4 * (i - 1)] == notecontainer.notes[i].velocity "
+                 "for i in range(1, len(notecontainer.notes))])" % (_B, _B, _st, _B, _B))],
+       modifies=["param:self"], havoc={"self.track_data": "bytes", "self.delta_time": "bytes"},
+       split=[{"field_types": {"notecontainer.notes": "[" + ",".join(["Note"] * k) + "]"}} for k in range(0, 5)],
+       split_is_domain=True,
+       notes="domain: containers of 0..4 notes with arbitrary names, channels and velocities in MIDI range",
+       battery="track_nc")
